@@ -142,6 +142,105 @@ func runC04(c *Ctx) {
 		}
 		c04Msg(c, "ladder", m, "")
 	}
+	// names whose expanded length is just below, at and above the 255-octet maximum and whose suffix is already
+	// in the message: both settings must take the same decision, and whatever is packed must unpack
+	mkLabels := func(total int) [][]byte { // labels with wire length (including the root octet) = total
+		var ls [][]byte
+		left := total - 1
+		for left > 0 {
+			n := 63
+			if left-1 < n {
+				n = left - 1
+			}
+			if left-1-n == 1 { // would leave room for a length octet only
+				n--
+			}
+			if n > 3 && r.Chance(50) && left-1-n != 0 {
+				k := 1 + r.Intn(n-1)
+				if left-1-k != 1 {
+					n = k
+				}
+			}
+			l := make([]byte, n)
+			for i := range l {
+				l[i] = byte('a' + r.Intn(26))
+			}
+			ls = append(ls, l)
+			left -= 1 + n
+		}
+		return ls
+	}
+	for i := 0; i < c.Scale(150, 3000); i++ {
+		suffix := mkLabels(3 + r.Intn(200))
+		sl := len(wireOf(suffix))
+		for _, total := range []int{253, 254, 255, 256, 257, 258} {
+			if total-sl < 2 {
+				continue
+			}
+			pre := mkLabels(total - sl + 1) // the prefix without a root of its own
+			full := append(append([][]byte{}, pre...), suffix...)
+			if len(wireOf(full)) != total {
+				continue
+			}
+			m := new(dns.Msg)
+			m.SetQuestion(presentLabels(suffix), dns.TypeA)
+			m.Answer = append(m.Answer, &dns.A{Hdr: dns.RR_Header{Name: presentLabels(suffix), Rrtype: dns.TypeA, Class: 1, Ttl: 1}, A: []byte{1, 2, 3, 4}})
+			if r.Bool() {
+				m.Answer = append(m.Answer, &dns.A{Hdr: dns.RR_Header{Name: presentLabels(full), Rrtype: dns.TypeA, Class: 1, Ttl: 1}, A: []byte{1, 2, 3, 5}})
+			} else {
+				m.Answer = append(m.Answer, &dns.NS{Hdr: dns.RR_Header{Name: presentLabels(suffix), Rrtype: dns.TypeNS, Class: 1, Ttl: 1}, Ns: presentLabels(full)})
+			}
+			m.Compress = false
+			_, e0 := m.Pack()
+			m.Compress = true
+			b1, e1 := m.Pack()
+			in := fmt.Sprintf("total=%d suffix=%d name=%s", total, sl, presentLabels(full))
+			c.Pred("limit255", "limit-same-decision", in, (e0 == nil) == (e1 == nil) && (e0 == nil) == (total <= 255),
+				fmt.Sprint(e0, " / ", e1), "both accept iff the name has at most 255 octets", true)
+			if e1 == nil {
+				var back dns.Msg
+				eb := back.Unpack(b1)
+				c.Pred("limit255", "packed-unpacks", in, eb == nil, fmt.Sprint(eb), "nil", true)
+			}
+			if e0 == nil && e1 == nil {
+				c04Msg(c, "limit255", m, "")
+			}
+		}
+	}
+	// a failed Pack must leave nothing behind: pack a message that fails after its first names were written, then
+	// (same goroutine) messages that share those names at other offsets
+	for i := 0; i < c.Scale(60, 1200); i++ {
+		setNamePool(r, r.Intn(2))
+		sharedLs := nameFor(r, 0)
+		if len(wireOf(sharedLs)) > 180 || len(sharedLs) == 0 {
+			sharedLs = [][]byte{[]byte("shared"), []byte("example")}
+		}
+		shared := presentLabels(sharedLs)
+		bad := new(dns.Msg)
+		bad.SetQuestion(shared, dns.TypeMX)
+		bad.Compress = true
+		bad.Answer = append(bad.Answer, &dns.MX{Hdr: dns.RR_Header{Name: "a." + shared, Rrtype: dns.TypeMX, Class: 1, Ttl: 1}, Preference: 1, Mx: "mx." + shared})
+		switch r.Intn(3) {
+		case 0:
+			bad.Answer = append(bad.Answer, &dns.NS{Hdr: dns.RR_Header{Name: shared, Rrtype: dns.TypeNS, Class: 1, Ttl: 1}, Ns: "not..valid."})
+		case 1:
+			bad.Answer = append(bad.Answer, &dns.TXT{Hdr: dns.RR_Header{Name: shared, Rrtype: dns.TypeTXT, Class: 1, Ttl: 1}, Txt: []string{strings.Repeat("x", 300)}})
+		default:
+			bad.Answer = append(bad.Answer, &dns.NS{Hdr: dns.RR_Header{Name: strings.Repeat("y", 64) + "." + shared, Rrtype: dns.TypeNS, Class: 1, Ttl: 1}, Ns: shared})
+		}
+		_, eb := bad.Pack()
+		c.Hit(fmt.Sprintf("failed-pack:%v", eb != nil))
+		for k := 0; k < 3; k++ {
+			m := new(dns.Msg)
+			m.SetQuestion(presentLabels(nameFor(r, 0)), dns.TypeMX)
+			for j := 0; j < 1+r.Intn(3); j++ {
+				m.Answer = append(m.Answer, &dns.MX{Hdr: dns.RR_Header{Name: []string{"", "a.", "zz."}[r.Intn(3)] + shared, Rrtype: dns.TypeMX, Class: 1, Ttl: 1},
+					Preference: 10, Mx: []string{"", "mx.", "q."}[r.Intn(3)] + shared})
+			}
+			c04Msg(c, "after-failed-pack", m, "")
+		}
+		namePool = nil
+	}
 	// every (type, name field): one record of each type with names from a pool, after a question
 	t := loadSpec()
 	rounds := c.Scale(6, 60)
